@@ -161,21 +161,31 @@ func genG17Wiring(repo string, w *Out) error {
 		wiring = append(wiring, fmt.Sprintf("bind.%s: flag %q parsed by %s", fn, name, parser))
 	}
 	w.DefStrList("wiring", wiring)
-	// which forms of the host name the deny site consults (the model's [site_forms])
+	// which forms of the host name the deny and the direct site consult (the model's [site_forms])
 	mf, hasForms := top["matchesAnyForm"]
-	denyBody := ""
-	if fd, err := hf.Func("HTTPProxy.denyDomains"); err == nil {
-		denyBody = hf.Src(fd.Body)
-	}
-	switch {
-	case hasForms && strings.Contains(denyBody, "matchesAnyForm(r, req.URL.Hostname())") &&
-		strings.Contains(hf.Src(mf.Body), `r.Match(strings.TrimSuffix(host, "."))`) && strings.Contains(hf.Src(mf.Body), "r.Match(host)"):
-		w.DefBool("deny_also_without_trailing_dot", true)
-	case strings.Contains(denyBody, "r.Match(req.URL.Hostname())") || strings.Contains(denyBody, "r.Match(h)"):
-		w.DefBool("deny_also_without_trailing_dot", false)
-	default:
-		w.DefBool("deny_also_without_trailing_dot", false)
-		return fmt.Errorf("denyDomains: the name given to Match is not a shape the model knows: %s", denyBody)
+	formsOK := hasForms && strings.Contains(hf.Src(mf.Body), `r.Match(strings.TrimSuffix(host, "."))`) && strings.Contains(hf.Src(mf.Body), "r.Match(host)")
+	for _, site := range []struct {
+		fn, flag, viaForms string
+		plain              []string
+	}{
+		{"HTTPProxy.denyDomains", "deny_also_without_trailing_dot", "matchesAnyForm(r, req.URL.Hostname())",
+			[]string{"r.Match(req.URL.Hostname())", "r.Match(h)"}},
+		{"HTTPProxy.directDomains", "direct_also_without_trailing_dot", "matchesAnyForm(hp.config.DirectDomains, req.URL.Hostname())",
+			[]string{"hp.config.DirectDomains.Match(req.URL.Hostname())", "hp.config.DirectDomains.Match(h)"}},
+	} {
+		body := ""
+		if fd, err := hf.Func(site.fn); err == nil {
+			body = hf.Src(fd.Body)
+		}
+		switch {
+		case formsOK && strings.Contains(body, site.viaForms):
+			w.DefBool(site.flag, true)
+		case strings.Contains(body, site.plain[0]) || strings.Contains(body, site.plain[1]):
+			w.DefBool(site.flag, false)
+		default:
+			w.DefBool(site.flag, false)
+			return fmt.Errorf("%s: the name given to Match is not a shape the model knows: %s", site.fn, body)
+		}
 	}
 	return nil
 }
